@@ -63,6 +63,12 @@ impl OverflowTable {
             clk += 1;
         }
 
+        // the states recorded above are keyed by the "negative" addresses of the initial rows; the
+        // initial state must also be found when the history is queried by an actual clock cycle
+        if enable_trace && !init_values.is_empty() {
+            overflow_table.save_current_state(0);
+        }
+
         overflow_table
     }
 
